@@ -215,8 +215,8 @@ struct cfg {
 static const struct cfg cfgs[] = {
     {0, 0, 1, 4, 3, 1}, {3, 0, 1, 4, 3, 1}, {3, 1, 1, 3, 2, 1},
     {1, 0, 1, 4, 3, 0}, {2, 0, 1, 4, 3, 0},
-    {0, 0, 8, 4, 3, 0}, {1, 0, 8, 4, 3, 0}, {2, 0, 8, 4, 3, 0}, {3, 0, 8, 4, 3, 0},
-    {0, 1, 1, 4, 2, 0}, {3, 1, 1, 4, 2, 0}, {3, 1, 8, 4, 2, 0}, {3, 2, 1, 4, 2, 0}, {1, 2, 1, 3, 3, 0},
+    {0, 0, 8, 4, 3, 0}, {3, 0, 8, 4, 3, 0},
+    {0, 1, 1, 4, 2, 0}, {3, 1, 1, 4, 2, 0}, {3, 1, 8, 3, 3, 0}, {3, 2, 1, 4, 2, 0}, {1, 2, 1, 3, 3, 0},
 };
 
 int main(int argc, char **argv) {
